@@ -227,4 +227,27 @@ func TestC03E2E(t *testing.T) {
 		em.Marker("end", idx)
 		idx++
 	}
+
+	// ---- a RecvMsg already blocked when the handler returns, the read loop held up inside its own cancel()
+	for _, k := range small {
+		for _, rk := range []int{1, 2, 3} {
+			for nfirst := 0; nfirst <= 1; nfirst++ {
+				if rk == 1 && nfirst == 1 {
+					continue
+				}
+				if !want(idx) {
+					idx++
+					continue
+				}
+				em.Marker("begin", idx)
+				sent, obs := runStBlockedRecv(t, reg, rk, nfirst, k)
+				tags := append(k.tags(), "part=e2e", fmt.Sprintf("rpc=%s", map[int]string{1: "client-stream", 2: "server-stream", 3: "bidi"}[rk]),
+					"position=recv-blocked-when-trailer-arrives")
+				em.Emit(Rec{Idx: idx, Kind: "e2e-stream-blocked-recv", Desc: map[string]any{"rk": rk, "first": nfirst, "err": k.desc()}, Tags: tags,
+					Coq: fmt.Sprintf("CE2ES %d %s %s %s", rk, k.coq(reg), zs(sent), obs)})
+				em.Marker("end", idx)
+				idx++
+			}
+		}
+	}
 }
